@@ -107,7 +107,9 @@ def go_test(ctx, pkg, run, env, timeout=1800, tags="verif", race=False):
     p = subprocess.run(cmd, cwd=harness_dir(ctx), env=e, stdout=subprocess.PIPE, stderr=subprocess.STDOUT, text=True,
                        timeout=timeout + 60)
     if p.returncode != 0:
-        raise Infra("driver %s/%s failed (exit %d):\n%s" % (pkg, run, p.returncode, p.stdout[-4000:]))
+        e = Infra("driver %s/%s failed (exit %d):\n%s" % (pkg, run, p.returncode, p.stdout[-4000:]))
+        e.out = p.stdout
+        raise e
     return {"wall_s": round(time.time() - t, 2), "out": p.stdout}
 
 
